@@ -27,6 +27,14 @@ def items(tier, seed):
                          job_open=JOB, top_open=TOP, nest_open={},
                          extra=_base.X_THASH, k=3 if th else 2,
                          bound=3 if th else 2)
+    yield from spaces.mk(['flat23', 'nest22'], force='each_job',
+                         fargs={'mods': [('out', 'raise_empty'),
+                                         ('critical', True)],
+                                'also': [('top', 'verbose', True),
+                                         ('n', 'verbose', True)]},
+                         job_open={'dur': [0, 2], 'cdelay': [1]},
+                         top_open={'window': [1]},
+                         nest_open={'critical': [True]}, k=1, bound=2)
     yield from spaces.mk(['flat4'], th, force='each_job',
                          fargs={'mods': crit['mods']},
                          job_open={'dur': [0, 2], 'cdelay': [1]},
